@@ -414,6 +414,8 @@ import re as _re
 
 def known_class(arm, case, key):
     import yaml
+    if isinstance(case, tuple) and case and isinstance(case[0], str) and arm in ("streamed", "encoded"):
+        case = case[0]          # (text, schedule, pad) / (text, encoding, schedule): the findings below are about the text
     if not isinstance(case, str):
         return None
     if key.startswith(("scan-raised:c:UnicodeDecodeError", "parse-raised:c:UnicodeDecodeError")) and _re.search(r"%[0-9A-Fa-f]{2}", case):
